@@ -52,6 +52,14 @@ FIXED = [
 ]
 
 
+# rule universe of the exhaustive small scope (thorough tier)
+SCOPE_RULES = ['/<x>', '/a/<x>', '/<x>/<y>', '/<x:int>', '/<x:int>/<y:int>', '/<x:int>-<y:int>', '/<x:int><y>',
+               '/<:int>/<:int>', '/<x:float>', '/<x:float>/a', '/a<x:float>', '/<x:int>.<y:int>', '/<x:float>-<y:int>',
+               '/<p:path>', '/<p:path>/a', '/<p:path>-<x:int>', '/<x:re:[a-z]+>', '/<x:re:[a-z]*>/<y>',
+               '/<x:re:\\d+>a', '/<x:re:.*>', '/<x:re:[^/]+>/<y:int>', '/<x>-<y>', '/<x:int>a<y:re:[01]+>',
+               '/0<x:int>', '/<x:float>.<y>', '/<x:re:[a-z]+><y:int>', '/<x><y:int>', '/a/<x>/<:int>/1']
+
+
 def gen_wild(rng, anon=.3):
     k = rng.randrange(16)
     name = None if rng.random() < anon else rng.choice(NAMES)
@@ -244,9 +252,20 @@ def _txt(entries):
     return ';'.join(entries) if entries else '~'
 
 
-def rt_case(rule, path):
-    """(line, implementation answer, info) for one round trip on the real code"""
+def rt_case(rule, path, whole_only=False):
+    """(line, implementation answer, info) for one round trip on the real code.  `whole_only`:
+    ship the handler answers for the whole texts only, not for every suffix (enough for a rule
+    that is a single wildcard; keeps very long paths shippable)"""
     run = Lite()
+    if whole_only:
+        full = run.env_for
+
+        def env_for(p):
+            out = []
+            for fk in run.fkeys:
+                out.append(env_entry(fk, run.FF._filter_cache[fk][0], p))
+            return out
+        run.env_for = env_for
     ans = run.add(rule, ['GET'])
     cerr = run.ops[0].split('|')[-1]
     info = dict(matched=False, built=False, rematched=False)
@@ -635,9 +654,10 @@ class C19(Check):
         cases = list(FIXED)
         for _ in range(n):
             cases.append(gen_case(rng))
+        cases.append(('/<q:float>', '1' + '0' * 309))          # witness of C19:url:float-overflow-inf
         for rule, path in cases:
             try:
-                line, impl, info = rt_case(rule, path)
+                line, impl, info = rt_case(rule, path, whole_only=len(path) > 200)
             except core.Hang:
                 self._bump('hang-skipped')
                 continue
@@ -708,6 +728,13 @@ class C19(Check):
                     break
                 rule, ast = gen_rule(rng)
             cases.append((rule, ast, [gen_path(rng, ast) for _ in range(4)]))
+        if n >= 60000:
+            # exhaustive small scope (thorough tier): a fixed rule universe x every path up to length 5
+            import itertools
+            alpha = ['a', '/', '-', '0', '1', '.']
+            paths = [''.join(t) for k in range(1, 6) for t in itertools.product(alpha, repeat=k)]
+            for rule in SCOPE_RULES:
+                cases.append((rule, ast_of_rule(rule), paths))
         for rule, ast, paths in cases:
             bad, ev = self._oracle_case(rule, ast, paths)
             evals += ev
